@@ -44,6 +44,7 @@ fn main() {
     };
     for case in first..first + n {
         let mut rng = Rng::new(seed, case);
+        enc::ORPHAN.with(|o| o.set(None));
         let line = std::panic::catch_unwind(std::panic::AssertUnwindSafe(|| match kind {
             "C16" => c16::case(&mut rng),
             "C17" => c17::case(&mut rng),
